@@ -311,19 +311,21 @@ class MultiVector:
         return self.__class__.fromkeysvalues(self.algebra, keys=self.keys(), values=return_values)
 
     def __setitem__(self, indices, values):
-        if isinstance(values, MultiVector):
-            if self.keys() != values.keys():
-                raise ValueError('setitem with a multivector is only possible for equivalent MVs.')
-            values = values.values()
-
         if not isinstance(indices, tuple):
             indices = (indices,)
 
-        if isinstance(self.values(), (tuple, list)):
-            for self_values, other_value in zip(self.values(), values):
-                self_values[indices] = other_value
-        else:
-            self.values()[(slice(None), *indices)] = values
+        if isinstance(values, MultiVector):
+            if self.keys() != values.keys():
+                raise ValueError('setitem with a multivector is only possible for equivalent MVs.')
+            # One new value per coefficient.
+            values = values.values()
+        elif len(self):
+            # Anything else follows the broadcasting rules of an array of coefficients, whatever the container.
+            import numpy as np
+            values = np.broadcast_to(values, (len(self), *np.shape(self.values()[0][indices])))
+
+        for self_values, other_value in zip(self.values(), values):
+            self_values[indices] = other_value
 
     def __getattr__(self, basis_blade):
         # TODO: if this first check is not true, raise hell instead?
